@@ -1,5 +1,4 @@
 import Pendulum.Proofs.ParseAllDur
-import Pendulum.Proofs.ParserGen
 import Pendulum.Props.C07
 import Pendulum.Props.C13
 /-! # C17 — parse() is total: a supported value or a ValueError/ParserError, nothing else
@@ -350,191 +349,5 @@ example : parseAll .py {} (fun _ _ _ => .error .parserError) "".toList = .error 
 regenerated on every run. External callees are the fields of `ext : Ext PV`; what the hand model says about them is the
 hypothesis `ExtOk` (satisfiable: `front_end_hypotheses_satisfiable`). `durOk` is passed by application only (see
 Model/ParseAll.lean on the range predicate). -/
-section SourceTie
-open Pendulum.ParserGen
-open Pendulum.Gen.Parser (Exc Obj IntervalObj Parsed TzVal NowV Dict Ext)
 
-/-- **front_end_source_eq_model.** The try/suppress chain of `parsing._parse` as written in the source —
-    `suppress(ValueError)` around `parse_iso8601`, `suppress(ValueError)` around `_parse_iso8601_interval`,
-    `suppress(ParserError)` around `_parse_common`, `options.get("strict", True)`, dateutil with `day_first` / `year_first`
-    inside `except (ValueError, ArithmeticError)` — is the fallback order of the model's `baseParse`, for either value of the
-    strict flag, every string and both backends -/
-theorem front_end_source_eq_model {V : Type} (b : Backend) (durObj : IsoDur.Parsed → Obj) (hd : DurObjOk b durObj)
-    (du : Dateutil) (ext : Ext V) (hiso : IsoOk durOk b durObj ext) (hcm : CommonOk ext.COMMON_match) (hstd : StdOk ext)
-    (hdu : DuExtOk du ext) (harith : ext.issubclass_ArithmeticError = isArithmetic) (cs : List Char) (d : Dict) (o : Options)
-    (h1 : d.strict = some o.strict) (h2 : d.day_first = some o.dayFirst) (h3 : d.year_first = some o.yearFirst) :
-    Gen.Parser.parsing_p_parse ext cs d = liftE (parsedOf durObj) (baseParse durOk b o du cs) :=
-  parse_chain_eq durOk b durObj hd du ext hiso hcm hstd hdu harith cs d o h1 h2 h3
-
-/-- **parse_common_source_eq_model.** `_parse_common` as written in the source (which groups are tested, the `int()`
-    conversions, `day_first` swapping month and day, the defaults 0 / 1 / 1, the fraction cut to six digits and padded, which
-    constructor gets which arguments) is the model's `commonParseDF`, for every `COMMON.match` that agrees with the model's
-    recogniser (`CommonOk`) and stdlib constructors that range-check as the model's (`StdOk`) -/
-theorem parse_common_source_eq_model {V : Type} (ext : Ext V) (hcm : CommonOk ext.COMMON_match) (hstd : StdOk ext)
-    (cs : List Char) (o : Dict) (df : Bool) (hdf : o.day_first = some df) :
-    Gen.Parser.parsing_p_parse_common ext cs o = liftE objOf (commonParseDF df cs) :=
-  parse_common_eq ext hcm hstd cs o df hdf
-
-/-- `_parse_iso8601_interval` as written in the source (`"/" in text`, `split("/")` into exactly two parts, the three
-    shapes by `[:1] == "P"`, the type checks on the halves) is the model's `parseIntervalRaw` -/
-theorem interval_parse_source_eq_model {V : Type} (b : Backend) (durObj : IsoDur.Parsed → Obj) (hd : DurObjOk b durObj)
-    (ext : Ext V) (hiso : IsoOk durOk b durObj ext) (cs : List Char) :
-    Gen.Parser.parsing_p_parse_iso8601_interval ext cs = liftE (ivOf durObj) (parseIntervalRaw durOk b cs) :=
-  parse_interval_eq durOk b durObj hd ext hiso cs
-
-/-- **normalize_source_eq_model.** `_normalize` as written in the source: `exact` → unchanged; a time is completed with the
-    year, month, day of `options["now"] or datetime.now()`; a date that is not a datetime becomes midnight; anything else
-    (datetime, `_Interval`, duration) is returned as it is -/
-theorem normalize_source_eq_model {V : Type} (ext : Ext V) (hstd : StdOk ext) (d : Dict) :
-    (∀ (v : Value) (n : Option NowV), WF v → d.now = some n →
-      dateOk (nowOf (n.getD ext.datetime_now)).1 (nowOf (n.getD ext.datetime_now)).2.1 (nowOf (n.getD ext.datetime_now)).2.2 →
-      Gen.Parser.parsing_p_normalize ext (.obj (objOf v)) d =
-        .ok (.obj (objOf (normalizeM (Gen.Parser.py_truthy_optbool d.exact) (nowOf (n.getD ext.datetime_now)) v)))) ∧
-    (∀ p : Parsed, p.isinstance .time = false → p.isinstance .date = false → Gen.Parser.parsing_p_normalize ext p d = .ok p) :=
-  ⟨fun v n hv hn hnow => normalize_val_eq ext hstd v hv d n hn hnow, fun p h1 h2 => normalize_other_eq ext p d h1 h2⟩
-
-/-- **wrap_source_eq_model.** `_normalize` followed by the type dispatch of `parser._parse` as written in the source (aware
-    datetime → `pendulum.instance(parsed)`; naive → `pendulum.datetime(<the seven fields>, tz=options.get("tz", UTC))`; date →
-    `pendulum.date`; time → `pendulum.time`) is the model's `wrapTz` with its `tz` handling -/
-theorem wrap_source_eq_model (b : Backend) (ext : Ext PV) (hstd : StdOk ext) (hp : PendOk durOk b ext) (text : List Char)
-    (v : Value) (hv : WF v) (d o : Dict) (n : Option NowV) (hn : d.now = some n)
-    (hnow : dateOk (nowOf (n.getD ext.datetime_now)).1 (nowOf (n.getD ext.datetime_now)).2.1 (nowOf (n.getD ext.datetime_now)).2.2) :
-    mapE PV.toOut (Gen.Parser.bindE (Gen.Parser.parsing_p_normalize ext (.obj (objOf v)) d) fun p =>
-        Gen.Parser.parser_p_parse_dispatch ext text p o) =
-      liftE outOfValue (wrapTz (Gen.Parser.py_truthy_optbool d.exact) (tzOf (o.tz.getD .UTC)) (nowOf (n.getD ext.datetime_now)) v) :=
-  wrap_eq durOk b ext hstd hp text v hv d o n hn hnow
-
-/-- **interval_source_eq_model.** `_interval` as written in the source — duration + start: `dt = instance(start, tz=tz)`,
-    `interval(dt, dt.add(years=…years, months=…months, weeks=…weeks, days=…remaining_days, hours=…hours, minutes=…minutes,
-    seconds=…remaining_seconds, microseconds=…microseconds))`; duration + end: `interval(dt.subtract(<the same>), dt)`;
-    start + end: both through `instance(…, tz=tz)`, the naive/aware endpoint check, `interval(start, end)` — is the model's
-    `assembleRaw`, and inside `except (OverflowError, ValueError): raise ParserError` the model's `assemble` -/
-theorem interval_source_eq_model (b : Backend) (durObj : IsoDur.Parsed → Obj) (hd : DurObjOk b durObj) (ext : Ext PV)
-    (hp : PendOk durOk b ext) (r : IntervalRaw) (hr : RawOk r) :
-    (∀ tz : TzVal, mapE PV.toOut (Gen.Parser.parser_p_interval ext (ivOf durObj r) tz) = liftE id (assembleRaw b (tzOf tz) r)) ∧
-    (∀ (text : List Char) (d : Dict), mapE PV.toOut (Gen.Parser.parser_p_parse_dispatch ext text (.interval (ivOf durObj r)) d) =
-      liftE id (assemble b (tzOf (d.tz.getD .UTC)) r)) :=
-  ⟨fun tz => interval_eq durOk b durObj hd ext hp tz r hr,
-   fun text d => dispatch_interval_eq durOk b durObj hd ext hp text d r hr⟩
-
-/-- **parse_source_eq_model.** `pendulum.parse` as written in the source, end to end = the model's `parseAll`, for every
-    string, every options dictionary `u` (any of the six keys present or absent; `optsOf` = the defaults the model applies),
-    both backends -/
-theorem parse_source_eq_model (b : Backend) (durObj : IsoDur.Parsed → Obj) (du : Dateutil) (ext : Ext PV)
-    (h : ExtOk durOk b durObj du ext) (hduwf : DuWF du) (u : Dict) (cs : List Char)
-    (hnow : dateOk (optsOf u ext.datetime_now).now.1 (optsOf u ext.datetime_now).now.2.1 (optsOf u ext.datetime_now).now.2.2) :
-    mapE PV.toOut (Gen.Parser.parser_parse ext cs u) = liftE id (parseAll b (optsOf u ext.datetime_now) du cs) :=
-  front_end_eq durOk b durObj du ext h hduwf u cs hnow
-
-/-- **parse_total_source.** `parse_total` restated over the generated front end: `pendulum.parse` as written in the source
-    raises nothing but `ParserError` / `ValueError` -/
-theorem parse_total_source (b : Backend) (durObj : IsoDur.Parsed → Obj) (du : Dateutil) (ext : Ext PV)
-    (h : ExtOk durOk b durObj du ext) (hduwf : DuWF du) (hdu : DuOk du) (u : Dict) (cs : List Char)
-    (hnow : dateOk (optsOf u ext.datetime_now).now.1 (optsOf u ext.datetime_now).now.2.1 (optsOf u ext.datetime_now).now.2.2)
-    (e : Exc) (he : Gen.Parser.parser_parse ext cs u = .error e) : e = .ParserError ∨ e = .ValueError :=
-  front_end_total durOk b durObj du ext h hduwf hdu u cs hnow e he
-
-/-- the hypotheses on the external callees are satisfiable, for both backends, every dateutil and every "today": the model's
-    own functions (`extRef`), the raw duration components (`rawDurObj`), the model's recogniser as `COMMON.match` (`cmRef`) -/
-theorem front_end_hypotheses_satisfiable (b : Backend) (du : Dateutil) (today : NowV) :
-    ExtOk durOk b (rawDurObj b) du (extRef durOk b (rawDurObj b) du cmRef today) :=
-  extRef_ok durOk b (rawDurObj b) (rawDurObj_ok b) du cmRef cmRef_ok today
-
-/-- the defaults of `DEFAULT_OPTIONS` as written in the source -/
-theorem default_options_source :
-    Gen.Parser.DEFAULT_OPTIONS =
-      { day_first := some false, year_first := some true, strict := some true, exact := some false, now := some none } := by
-  first
-    | rfl
-    | (exfalso; fail "GENERATED-MODEL TIE BROKEN: theorem Pendulum.Props.C17.default_options_source — DEFAULT_OPTIONS of parsing/__init__.py was edited (Gen.Parser.DEFAULT_OPTIONS)")
-
-/-- the `COMMON` regular expression (whose matching is the parameter `COMMON.match`, modelled by `cmTimeMatch` / `commonParseDF`)
-    is the one the model was written for -/
-theorem common_regex_pinned : Gen.Parser.COMMON_pattern =
-    "^(?P<date>    (?P<classic>        (?P<year>\\d{4})        (?P<monthday>            (?P<monthsep>[/:])?(?P<month>\\d{2})            ((?P<daysep>[/:])?(?P<day>\\d{2}))        )?    ))?(?P<time>    (?P<timesep>\\ )?    (?P<hour>\\d{1,2}):(?P<minute>\\d{1,2})(?::(?P<second>\\d{1,2}))?    (?P<subsecondsection>        (?:[.,])        (?P<subsecond>\\d{1,9})    )?)?$\nre.VERBOSE" := by
-  first
-    | rfl
-    | (exfalso; fail "GENERATED-MODEL TIE BROKEN: theorem Pendulum.Props.C17.common_regex_pinned — the COMMON regular expression of parsing/__init__.py was edited (Gen.Parser.COMMON_pattern)")
-
-/-- the reference callees for the examples: no dateutil, today = 2001-02-03 -/
-abbrev refExt (b : Backend) : Ext PV := extRef durOk b (rawDurObj b) (fun _ _ _ => .error .parserError) cmRef ⟨2001, 2, 3⟩
-
-example : mapE PV.toOut (Gen.Parser.parser_parse (refExt .py) "2021/03/04 1:2:3.5".toList {}) =
-    .ok (.dateTime (dateTimeV 2021 3 4 1 2 3 500000 (some 0))) := by decide
-example : mapE PV.toOut (Gen.Parser.parser_parse (refExt .rust) "2021/03/04 1:2".toList { day_first := some true, tz := some (.fixed 3600) }) =
-    .ok (.dateTime (dateTimeV 2021 4 3 1 2 0 0 (some 3600))) := by decide
-example : mapE PV.toOut (Gen.Parser.parser_parse (refExt .rust) "12:34".toList { tz := some .None }) =
-    .ok (.dateTime (dateTimeV 2001 2 3 12 34 0 0 none)) := by decide
-example : mapE PV.toOut (Gen.Parser.parser_parse (refExt .py) "12:34".toList { exact := some true }) =
-    .ok (.time (timeV 12 34 0 0 none)) := by decide
-example : mapE PV.toOut (Gen.Parser.parser_parse (refExt .py) "12:34".toList { now := some (some ⟨1999, 12, 31⟩) }) =
-    .ok (.dateTime (dateTimeV 1999 12 31 12 34 0 0 (some 0))) := by decide
-example : mapE PV.toOut (Gen.Parser.parser_parse (refExt .rust) "P1Y2M3DT4H5M6S".toList {}) =
-    .ok (.duration ⟨1, 2, 3 * 86400000000 + 4 * 3600000000 + 5 * 60000000 + 6000000⟩) := by decide
-example : mapE PV.toOut (Gen.Parser.parser_parse (refExt .py) "2021-03-04T12:00:00+01:00/PT36H".toList {}) =
-    .ok (.interval (dateTimeV 2021 3 4 12 0 0 0 (some 3600)) (dateTimeV 2021 3 6 0 0 0 0 (some 3600))) := by decide
-example : mapE PV.toOut (Gen.Parser.parser_parse (refExt .rust) "P1M/2021-03-31T10:00:00".toList { tz := some .None }) =
-    .ok (.interval (dateTimeV 2021 2 28 10 0 0 0 none) (dateTimeV 2021 3 31 10 0 0 0 none)) := by decide
-example : Gen.Parser.parser_parse (refExt .py) "2021-03-04T00Z/2021-03-05T00".toList { tz := some .None } = .error .ParserError := by decide
-example : Gen.Parser.parser_parse (refExt .rust) "9999-12-31T00:00/P1D".toList {} = .error .ParserError := by decide
-example : Gen.Parser.parser_parse (refExt .py) "2:".toList {} = .error .ParserError := by decide
-example : Gen.Parser.parser_parse (refExt .py) "10pm".toList { strict := some false } = .error .ParserError := by decide
-example : mapE PV.toOut (Gen.Parser.parser_parse (refExt .py) "now".toList {}) = .ok .now := by decide
-
-end SourceTie
-
-/-! ### the pure-Python ISO 8601 parser as regenerated from the source (`Gen/IsoPy.lean`) raises nothing but `ValueError`s -/
-
-section RegeneratedIso
-open Pendulum.IsoPyGen
-
-/-- the post-processing half of the model's `pyParse` fails only with `ParserError` / `ValueError` -/
-theorem pyPost_VE (dg : PyD) (tg : Option PyT) : VE (pyPost dg tg) := by
-  intro k h
-  unfold pyPost at h
-  split at h
-  · rename_i heq; cases h; exact pyDateFields_VE _ k heq
-  · split at h
-    · split at h
-      · split at h
-        · exact mkTime_VE _ _ _ _ _ k h
-        · cases h; exact Or.inl rfl
-      · exact mkDate_VE _ _ _ k h
-    · repeat' split at h
-      all_goals first
-        | (cases h; exact Or.inl rfl)
-        | (rename_i heq; cases h; exact pyTimeFields_VE _ k heq)
-        | (exact mkTime_VE _ _ _ _ _ k h)
-        | (exact mkDateTime_VE _ _ _ _ _ _ _ _ k h)
-
-/-- **iso_source_total.** `parse_iso8601` (pure Python) after the match, as regenerated from the source, followed by the
-    standard-library constructor it calls: whatever the groups of the match, the only exceptions are `ParserError` and
-    `ValueError` — what `parse()`'s `suppress(ValueError)` chain catches (no `TypeError` from an absent group, no
-    `OverflowError` from the date arithmetic of a week date). -/
-theorem iso_source_total {V : Type} (ext : Gen.IsoPy.Ext V) (hx : ExtOk ext) (d : WD) (t : Option WT) (hd : d.valid)
-    (ht : ∀ x, t = some x → x.valid) (e : String)
-    (h : Gen.IsoPy.bindE (Gen.IsoPy.py_iso_datetime ext (dtGroups d t)) build = .error e) :
-    e = "ParserError" ∨ e = "ValueError" := by
-  rw [datetime_tie ext hx d t hd ht] at h
-  cases hp : pyPost d.py (t.map WT.py) with
-  | ok v => rw [hp] at h; cases h
-  | error k =>
-    rw [hp] at h
-    injection h with h
-    subst h
-    rcases pyPost_VE _ _ k hp with rfl | rfl
-    · exact Or.inl rfl
-    · exact Or.inr rfl
-
-/-- … and so does the week-date conversion on its own (the date arithmetic stays inside the year it was given) -/
-theorem iso_week_source_total {V : Type} (ext : Gen.IsoPy.Ext V) (hx : ExtOk ext) (ty tw : List Char) (twd : Option (List Char))
-    (hy : Dig 4 ty) (hw : Dig 2 tw) (hwd : ∀ t, twd = some t → Dig 1 t) (e : String)
-    (h : Gen.IsoPy.py_get_iso_8601_week ext (some ty) (some tw) twd = .error e) : e = "ParserError" ∨ e = "ValueError" := by
-  have := week_tie ext hx ty tw twd hy hw hwd
-  rw [h] at this
-  cases hm : pyWeek (val ty) (val tw) (twd.map val) with
-  | ok v => rw [hm] at this; exact this.elim
-  | error k => rw [hm] at this; exact this
-
-end RegeneratedIso
 end Pendulum.Props.C17
